@@ -1143,4 +1143,730 @@ theorem destroy_off (cfg : Cfg) (s : Sys) (vt : VT) (ph : Phase) (g : Ghost) (h 
     exact ⟨ho, rfl⟩
 
 
+/-! ### SGR: the meaning of `chpen`'s parameters on the terminal -/
+
+/-- The parameter groups of a parameter list, as a function of the list alone. -/
+def toGroups (colon : Bool) : List Param → List PGroup
+  | [] => []
+  | p :: rest =>
+    if p.sub && colon then
+      match toGroups colon rest with
+      | g :: gs => (some p.val.toNat :: g) :: gs
+      | [] => [[some p.val.toNat]]
+    else [some p.val.toNat] :: toGroups colon rest
+
+/-- Put finished sub-parameters in front of the first group. -/
+def attach (g : PGroup) : List PGroup → List PGroup
+  | [] => [g]
+  | h :: t => (g ++ h) :: t
+
+theorem toGroups_ne_nil (colon : Bool) : ∀ (ps : List Param), ps ≠ [] → toGroups colon ps ≠ []
+  | [], h => absurd rfl h
+  | p :: rest, _ => by
+    simp only [toGroups]
+    split
+    · split <;> simp
+    · simp
+
+theorem groupsAcc_eq (colon : Bool) : ∀ (ps : List Param) (gs : List PGroup) (g : PGroup), ps ≠ [] →
+    groupsAcc colon gs g ps = gs ++ attach g (toGroups colon ps)
+  | [], _, _, h => absurd rfl h
+  | [p], gs, g, _ => by
+    simp only [groupsAcc, toGroups]
+    split <;> simp [attach]
+  | p :: q :: rest, gs, g, _ => by
+    have ih1 := groupsAcc_eq colon (q :: rest) gs (g ++ [some p.val.toNat]) (by simp)
+    have ih2 := groupsAcc_eq colon (q :: rest) (gs ++ [g ++ [some p.val.toNat]]) [] (by simp)
+    have hne := toGroups_ne_nil colon (q :: rest) (by simp)
+    have e := toGroups.eq_2 colon p (q :: rest)
+    rw [groupsAcc, e]
+    by_cases hs : (p.sub && colon) = true
+    · rw [if_pos hs, if_pos hs, ih1]
+      cases htg : toGroups colon (q :: rest) with
+      | nil => exact absurd htg hne
+      | cons h t => simp [attach]
+    · rw [if_neg hs, if_neg hs, ih2]
+      cases htg : toGroups colon (q :: rest) with
+      | nil => exact absurd htg hne
+      | cons h t => simp [attach]
+
+/-- Chunks whose last parameter is not marked "more sub-parameters" are tokenized independently. -/
+theorem toGroups_append (colon : Bool) : ∀ (as bs : List Param),
+    (∀ p, as.getLast? = some p → p.sub = false) → toGroups colon (as ++ bs) = toGroups colon as ++ toGroups colon bs
+  | [], bs, _ => rfl
+  | [p], bs, h => by
+    have hp := h p rfl
+    simp [toGroups, hp]
+  | p :: q :: rest, bs, h => by
+    have ih := toGroups_append colon (q :: rest) bs (fun x hx => h x (by simpa [List.getLast?_cons_cons] using hx))
+    have e1 := toGroups.eq_2 colon p (q :: rest ++ bs)
+    have e2 := toGroups.eq_2 colon p (q :: rest)
+    simp only [List.cons_append] at ih e1 ⊢
+    rw [e1, e2, ih]
+    have hne := toGroups_ne_nil colon (q :: rest) (by simp)
+    cases htg : toGroups colon (q :: rest) with
+    | nil => exact absurd htg hne
+    | cons hd t => split <;> simp
+
+theorem fg_chunk (colon : Bool) (v : Int) (more : List PGroup) (A : Attrs) (h : -1 ≤ v ∧ v ≤ 255) :
+    sgrRun (toGroups colon (colourParams 30 39 v) ++ more) A = sgrRun more (A.set .fg v) := by
+  have hv : v = -1 ∨ v = 0 ∨ v = 1 ∨ v = 2 ∨ v = 3 ∨ v = 4 ∨ v = 5 ∨ v = 6 ∨ v = 7 ∨ v = 8 ∨ v = 9 ∨ v = 10 ∨
+      v = 11 ∨ v = 12 ∨ v = 13 ∨ v = 14 ∨ v = 15 ∨ 16 ≤ v := by omega
+  rcases hv with rfl | rfl | rfl | rfl | rfl | rfl | rfl | rfl | rfl | rfl | rfl | rfl | rfl | rfl | rfl | rfl | rfl | hv
+  iterate 17 (cases colon <;> simp [colourParams, toGroups, sgrRun, sgrSingle, pv])
+  have e : colourParams 30 39 v = [⟨38, true⟩, ⟨5, true⟩, ⟨v, false⟩] := by
+    unfold colourParams; rw [if_neg (by omega), if_neg (by omega), if_neg (by omega)]; rfl
+  have hcast : ((v.toNat : Nat) : Int) = v := by omega
+  rw [e]
+  cases colon
+  · simp [toGroups, sgrRun, pv, hcast]
+  · simp [toGroups, sgrRun, pv, colourOfSubs, hcast]
+
+theorem bg_chunk (colon : Bool) (v : Int) (more : List PGroup) (A : Attrs) (h : -1 ≤ v ∧ v ≤ 255) :
+    sgrRun (toGroups colon (colourParams 40 49 v) ++ more) A = sgrRun more (A.set .bg v) := by
+  have hv : v = -1 ∨ v = 0 ∨ v = 1 ∨ v = 2 ∨ v = 3 ∨ v = 4 ∨ v = 5 ∨ v = 6 ∨ v = 7 ∨ v = 8 ∨ v = 9 ∨ v = 10 ∨
+      v = 11 ∨ v = 12 ∨ v = 13 ∨ v = 14 ∨ v = 15 ∨ 16 ≤ v := by omega
+  rcases hv with rfl | rfl | rfl | rfl | rfl | rfl | rfl | rfl | rfl | rfl | rfl | rfl | rfl | rfl | rfl | rfl | rfl | hv
+  iterate 17 (cases colon <;> simp [colourParams, toGroups, sgrRun, sgrSingle, pv])
+  have e : colourParams 40 49 v = [⟨48, true⟩, ⟨5, true⟩, ⟨v, false⟩] := by
+    unfold colourParams; rw [if_neg (by omega), if_neg (by omega), if_neg (by omega)]; rfl
+  have hcast : ((v.toNat : Nat) : Int) = v := by omega
+  rw [e]
+  cases colon
+  · simp [toGroups, sgrRun, pv, hcast]
+  · simp [toGroups, sgrRun, pv, colourOfSubs, hcast]
+
+/-- One attribute's parameters, read by the terminal: the attribute takes the pen's value. -/
+theorem chunk_sem (colon : Bool) (a : Attr) (v : Int) (h : inDomain a v = true) (more : List PGroup) (A : Attrs) :
+    sgrRun (toGroups colon (attrParams a v) ++ more) A = sgrRun more (A.set a (sem a v)) := by
+  cases a <;> simp only [inDomain, decide_eq_true_eq] at h
+  case fg => exact fg_chunk colon v more A h
+  case bg => exact bg_chunk colon v more A h
+  case altfont =>
+    have hv : v = -1 ∨ v = 0 ∨ v = 1 ∨ v = 2 ∨ v = 3 ∨ v = 4 ∨ v = 5 ∨ v = 6 ∨ v = 7 ∨ v = 8 ∨ v = 9 ∨ v = 10 := by omega
+    rcases hv with rfl | rfl | rfl | rfl | rfl | rfl | rfl | rfl | rfl | rfl | rfl | rfl <;>
+      simp [attrParams, toGroups, sgrRun, sgrSingle, pv, sem]
+  case sizepos =>
+    rcases h with rfl | rfl | rfl <;> simp [attrParams, toGroups, sgrRun, sgrSingle, pv, sem]
+  all_goals (rcases h with rfl | rfl <;> simp [attrParams, toGroups, sgrRun, sgrSingle, pv, sem])
+
+/-! ### the whole `delta` -/
+
+/-- The parameters one attribute contributes. -/
+def chunkOf (delta : PenMap) (a : Attr) : List Param :=
+  match delta a with
+  | none => []
+  | some v => attrParams a v
+
+theorem deltaParams_eq (delta : PenMap) : deltaParams delta = Attr.all.flatMap (chunkOf delta) := rfl
+
+/-- What `delta` does to the terminal's attributes, attribute by attribute. -/
+def applyDelta (delta : PenMap) (as : List Attr) (A : Attrs) : Attrs :=
+  as.foldl (fun acc a => match delta a with
+    | some v => acc.set a (sem a v)
+    | none => acc) A
+
+theorem attrParams_last (a : Attr) (v : Int) : ∀ p, (attrParams a v).getLast? = some p → p.sub = false := by
+  intro p hp
+  cases a <;> simp only [attrParams, colourParams] at hp
+  all_goals (repeat' split at hp) <;> simp at hp <;> (try subst hp) <;> rfl
+
+theorem chunkOf_last (delta : PenMap) (a : Attr) : ∀ p, (chunkOf delta a).getLast? = some p → p.sub = false := by
+  intro p hp
+  unfold chunkOf at hp
+  cases hd : delta a with
+  | none => simp [hd] at hp
+  | some v => simp only [hd] at hp; exact attrParams_last a v p hp
+
+theorem sgrRun_chunks (colon : Bool) (delta : PenMap) (hdom : PenDom delta) :
+    ∀ (as : List Attr) (more : List PGroup) (A : Attrs),
+      sgrRun (toGroups colon (as.flatMap (chunkOf delta)) ++ more) A = sgrRun more (applyDelta delta as A)
+  | [], more, A => rfl
+  | a :: rest, more, A => by
+    simp only [List.flatMap_cons]
+    rw [toGroups_append colon _ _ (chunkOf_last delta a), List.append_assoc]
+    cases hd : delta a with
+    | none =>
+      have : chunkOf delta a = [] := by simp [chunkOf, hd]
+      rw [this]
+      simp only [toGroups, List.nil_append, applyDelta, List.foldl_cons, hd]
+      exact sgrRun_chunks colon delta hdom rest more A
+    | some v =>
+      have : chunkOf delta a = attrParams a v := by simp [chunkOf, hd]
+      rw [this, chunk_sem colon a v (hdom a v hd)]
+      simp only [applyDelta, List.foldl_cons, hd]
+      exact sgrRun_chunks colon delta hdom rest more _
+
+theorem applyDelta_get (delta : PenMap) : ∀ (as : List Attr) (A : Attrs) (a : Attr), as.Nodup →
+    applyDelta delta as A a = if a ∈ as then (match delta a with
+      | some v => sem a v
+      | none => A a) else A a
+  | [], A, a, _ => by simp [applyDelta]
+  | x :: rest, A, a, hnd => by
+    have hx : x ∉ rest := (List.nodup_cons.mp hnd).1
+    have hr : rest.Nodup := (List.nodup_cons.mp hnd).2
+    simp only [applyDelta, List.foldl_cons]
+    have ih := applyDelta_get delta rest (match delta x with
+      | some v => A.set x (sem x v)
+      | none => A) a hr
+    simp only [applyDelta] at ih
+    rw [ih]
+    by_cases hax : a = x
+    · subst hax
+      simp only [hx, if_false, List.mem_cons, true_or, if_true]
+      cases delta a <;> simp [Attrs.set]
+    · have hset : (match delta x with
+          | some v => A.set x (sem x v)
+          | none => A) a = A a := by
+        cases delta x <;> simp [Attrs.set, hax]
+      simp only [List.mem_cons, hax, false_or, hset]
+
+theorem Attr.all_nodup : Attr.all.Nodup := by decide
+theorem Attr.mem_all (a : Attr) : a ∈ Attr.all := by cases a <;> simp [Attr.all]
+
+/-- The terminal's attributes after `chpen(delta, final)` when an SGR with parameters is sent. -/
+theorem sgrRun_deltaParams (colon : Bool) (delta : PenMap) (hdom : PenDom delta) (A : Attrs) (a : Attr)
+    (hne : deltaParams delta ≠ []) :
+    sgrRun (groupsAcc colon [] [] (deltaParams delta)) A a = match delta a with
+      | some v => sem a v
+      | none => A a := by
+  rw [groupsAcc_eq colon _ [] [] hne]
+  have hg : attach [] (toGroups colon (deltaParams delta)) = toGroups colon (deltaParams delta) := by
+    cases h : toGroups colon (deltaParams delta) with
+    | nil => exact absurd h (toGroups_ne_nil colon _ hne)
+    | cons x t => simp [attach]
+  rw [List.nil_append, hg, deltaParams_eq]
+  have := sgrRun_chunks colon delta hdom Attr.all [] A
+  rw [List.append_nil] at this
+  rw [this]
+  simp only [sgrRun]
+  rw [applyDelta_get delta Attr.all A a Attr.all_nodup, if_pos (Attr.mem_all a)]
+
+
+/-! ### every operation writes complete sequences (whatever the shadow holds) -/
+
+theorem feed_mouseOff_any (m : VModes) (A : Attrs) (k : Int) :
+    ∃ m', VT.feed ⟨.ground, m, A⟩ (mouseOff (modeForMouse k)) = ⟨.ground, m', A⟩ := by
+  unfold modeForMouse
+  split
+  · exact ⟨_, rfl⟩
+  · split
+    · exact ⟨_, rfl⟩
+    · split
+      · exact ⟨_, rfl⟩
+      · exact ⟨_, rfl⟩
+
+theorem feed_mouseOn_any (m : VModes) (A : Attrs) (k : Int) :
+    ∃ m', VT.feed ⟨.ground, m, A⟩ (mouseOn (modeForMouse k)) = ⟨.ground, m', A⟩ := by
+  unfold modeForMouse
+  split
+  · exact ⟨_, rfl⟩
+  · split
+    · exact ⟨_, rfl⟩
+    · split
+      · exact ⟨_, rfl⟩
+      · exact ⟨_, rfl⟩
+
+theorem feed_ite (vt : VT) (A : Attrs) (c : Prop) [Decidable c] (x y : List Nat)
+    (hx : ∃ m', VT.feed vt x = ⟨.ground, m', A⟩) (hy : ∃ m', VT.feed vt y = ⟨.ground, m', A⟩) :
+    ∃ m', VT.feed vt (if c then x else y) = ⟨.ground, m', A⟩ := by
+  split; exact hx; exact hy
+
+/-- Whatever the shadow holds, `setctl_int` writes complete sequences that leave the rendition alone. -/
+theorem setctl_ground (cfg : Cfg) (d : XDrv) (c : Option Ctl) (v : Int) (m : VModes) (A : Attrs) :
+    ∃ m', VT.feed ⟨.ground, m, A⟩ (setctlInt cfg d c v).2.1 = ⟨.ground, m', A⟩ := by
+  cases c with
+  | none => exact ⟨m, rfl⟩
+  | some c =>
+    cases c <;> unfold setctlInt <;> simp only
+    case altscreen => split; exact ⟨m, rfl⟩; exact feed_ite _ A _ _ _ ⟨_, feed_altOn m A⟩ ⟨_, feed_altOff m A⟩
+    case cursorvis => split; exact ⟨m, rfl⟩; exact feed_ite _ A _ _ _ ⟨_, feed_visOn m A⟩ ⟨_, feed_visOff m A⟩
+    case cursorblink => split; exact ⟨m, rfl⟩; exact feed_ite _ A _ _ _ ⟨_, feed_blinkOn m A⟩ ⟨_, feed_blinkOff m A⟩
+    case keypadApp => split; exact ⟨m, rfl⟩; exact feed_ite _ A _ _ _ ⟨_, feed_keypadOn m A⟩ ⟨_, feed_keypadOff m A⟩
+    case mouse => split; exact ⟨m, rfl⟩; exact feed_ite _ A _ _ _ (feed_mouseOff_any m A _) (feed_mouseOn_any m A _)
+    case cursorshape =>
+      split
+      · exact ⟨m, rfl⟩
+      · refine feed_ite _ A _ _ _ ?_ ⟨m, rfl⟩
+        obtain ⟨sh, bl, hf⟩ := feed_shapeSeq m A (v * 2 + (if d.mode.cursorblink ≠ 0 then -1 else 0))
+        exact ⟨_, hf⟩
+    all_goals exact ⟨m, rfl⟩
+
+theorem teardown_ground (d : XDrv) (m : VModes) (A : Attrs) :
+    ∃ m', VT.feed ⟨.ground, m, A⟩ (drvTeardown d) = ⟨.ground, m', Attrs.default⟩ := by
+  unfold drvTeardown
+  rw [feed_append, feed_append, feed_append, feed_append]
+  have h1 : ∃ m1, VT.feed ⟨.ground, m, A⟩ (if d.mode.mouse ≠ 0 then mouseOff (modeForMouse d.mode.mouse) else []) = ⟨.ground, m1, A⟩ := by
+    split; exact feed_mouseOff_any m A _; exact ⟨m, rfl⟩
+  obtain ⟨m1, e1⟩ := h1
+  have h2 : ∃ m2, VT.feed ⟨.ground, m1, A⟩ (if d.mode.cursorvis = 0 then visOn else []) = ⟨.ground, m2, A⟩ := by
+    split; exact ⟨_, feed_visOn m1 A⟩; exact ⟨m1, rfl⟩
+  obtain ⟨m2, e2⟩ := h2
+  have h3 : ∃ m3, VT.feed ⟨.ground, m2, A⟩ (if d.mode.altscreen ≠ 0 then altOff else []) = ⟨.ground, m3, A⟩ := by
+    split; exact ⟨_, feed_altOff m2 A⟩; exact ⟨m2, rfl⟩
+  obtain ⟨m3, e3⟩ := h3
+  have h4 : ∃ m4, VT.feed ⟨.ground, m3, A⟩ (if d.mode.keypad ≠ 0 then keypadOff else []) = ⟨.ground, m4, A⟩ := by
+    split; exact ⟨_, feed_keypadOff m3 A⟩; exact ⟨m3, rfl⟩
+  obtain ⟨m4, e4⟩ := h4
+  rw [e1, e2, e3, e4, feed_sgrReset]
+  exact ⟨m4, rfl⟩
+
+theorem resume_ground (d : XDrv) (m : VModes) (A : Attrs) :
+    ∃ m', VT.feed ⟨.ground, m, A⟩ (drvResume d) = ⟨.ground, m', A⟩ := by
+  unfold drvResume
+  rw [feed_append, feed_append, feed_append]
+  have h1 : ∃ m1, VT.feed ⟨.ground, m, A⟩ (if d.mode.keypad ≠ 0 then keypadOn else []) = ⟨.ground, m1, A⟩ := by
+    split; exact ⟨_, feed_keypadOn m A⟩; exact ⟨m, rfl⟩
+  obtain ⟨m1, e1⟩ := h1
+  have h2 : ∃ m2, VT.feed ⟨.ground, m1, A⟩ (if d.mode.altscreen ≠ 0 then altOn else []) = ⟨.ground, m2, A⟩ := by
+    split; exact ⟨_, feed_altOn m1 A⟩; exact ⟨m1, rfl⟩
+  obtain ⟨m2, e2⟩ := h2
+  have h3 : ∃ m3, VT.feed ⟨.ground, m2, A⟩ (if d.mode.cursorvis = 0 then visOff else []) = ⟨.ground, m3, A⟩ := by
+    split; exact ⟨_, feed_visOff m2 A⟩; exact ⟨m2, rfl⟩
+  obtain ⟨m3, e3⟩ := h3
+  have h4 : ∃ m4, VT.feed ⟨.ground, m3, A⟩ (if d.mode.mouse ≠ 0 then mouseOn (modeForMouse d.mode.mouse) else []) = ⟨.ground, m4, A⟩ := by
+    split; exact feed_mouseOn_any m3 A _; exact ⟨m3, rfl⟩
+  obtain ⟨m4, e4⟩ := h4
+  rw [e1, e2, e3, e4]
+  exact ⟨m4, rfl⟩
+
+theorem setupterm_ground (cfg : Cfg) (top : Top) (t : Term) (m : VModes) (A : Attrs) :
+    ∃ m', VT.feed ⟨.ground, m, A⟩ (setupterm cfg top t).2.2 = ⟨.ground, m', A⟩ ∧
+      (setupterm cfg top t).2.1.pen = t.pen ∧ (setupterm cfg top t).2.1.state = .started := by
+  unfold setupterm
+  simp only [Term.setctl]
+  rw [feed_append, feed_append, feed_append, feed_append]
+  split
+  · obtain ⟨m1, e1⟩ := setctl_ground cfg t.drv (some .altscreen) 1 m A
+    rw [e1]
+    obtain ⟨m2, e2⟩ := setctl_ground cfg (setctlInt cfg t.drv (some .altscreen) 1).1 (some .cursorvis) 0 m1 A
+    rw [e2]
+    obtain ⟨m3, e3⟩ := setctl_ground cfg (setctlInt cfg (setctlInt cfg t.drv (some .altscreen) 1).1 (some .cursorvis) 0).1 (some .mouse) 2 m2 A
+    rw [e3]
+    obtain ⟨m4, e4⟩ := setctl_ground cfg (setctlInt cfg (setctlInt cfg (setctlInt cfg t.drv (some .altscreen) 1).1 (some .cursorvis) 0).1 (some .mouse) 2).1 (some .keypadApp) 1 m3 A
+    rw [e4, feed_clearScreen]
+    exact ⟨m4, rfl, rfl, rfl⟩
+  · rw [feed_nil]
+    obtain ⟨m2, e2⟩ := setctl_ground cfg t.drv (some .cursorvis) 0 m A
+    rw [e2]
+    obtain ⟨m3, e3⟩ := setctl_ground cfg (setctlInt cfg t.drv (some .cursorvis) 0).1 (some .mouse) 2 m2 A
+    rw [e3]
+    obtain ⟨m4, e4⟩ := setctl_ground cfg (setctlInt cfg (setctlInt cfg t.drv (some .cursorvis) 0).1 (some .mouse) 2).1 (some .keypadApp) 1 m3 A
+    rw [e4, feed_clearScreen]
+    exact ⟨m4, rfl, rfl, rfl⟩
+
+
+theorem attrParams_ne_nil (a : Attr) (v : Int) (h : inDomain a v = true) : attrParams a v ≠ [] := by
+  cases a <;> simp only [inDomain, decide_eq_true_eq] at h <;> simp only [attrParams, colourParams]
+  all_goals (repeat' split) <;> simp
+  all_goals omega
+
+theorem deltaParams_nil (delta : PenMap) (hdom : PenDom delta) (h : deltaParams delta = []) : ∀ a, delta a = none := by
+  intro a
+  rw [deltaParams_eq] at h
+  have := (List.flatMap_eq_nil_iff.mp h) a (Attr.mem_all a)
+  cases hd : delta a with
+  | none => rfl
+  | some v =>
+    simp only [chunkOf, hd] at this
+    exact absurd this (attrParams_ne_nil a v (hdom a v hd))
+
+/-- A value that `tickit_pen_nondefault_attr` does not count means the default rendition. -/
+theorem sem_of_not_nondefault (p : PenMap) (a : Attr) (v : Int) (hp : p a = some v) (hd : inDomain a v = true)
+    (h : nondefaultAttr p a = false) : sem a v = dflt a := by
+  simp only [nondefaultAttr, hp] at h
+  cases a <;> simp only [inDomain, decide_eq_true_eq] at hd <;> simp [Attr.kind] at h <;> simp [sem, dflt, Attr.kind] <;> omega
+
+theorem sgrRun_reset (A : Attrs) : sgrRun (groupsAcc c [] [] []) A = Attrs.default := by
+  simp [groupsAcc, sgrRun, sgrSingle, pv]
+
+/-- `chpen(delta, next)` on a terminal that shows `cur` makes it show `next`. -/
+theorem chpen_establishes (d : XDrv) (cur next delta : PenMap) (A : Attrs)
+    (hdd : PenDom delta) (hdn : PenDom next)
+    (h0 : ∀ a, delta a = none → next a = cur a) (h1 : ∀ a v, delta a = some v → next a = some v)
+    (ih : ∀ a v, cur a = some v → A a = sem a v) :
+    ∀ a v, next a = some v →
+      (if (deltaParams delta).isEmpty then A
+        else sgrRun (groupsAcc (decide (d.cap.csiSubColon ≠ 0)) [] [] (if isNondefault next then deltaParams delta else [])) A) a
+        = sem a v := by
+  intro a v hn
+  by_cases he : (deltaParams delta).isEmpty = true
+  · rw [if_pos he]
+    have hnil : deltaParams delta = [] := by simpa using he
+    have := deltaParams_nil delta hdd hnil a
+    rw [h0 a this] at hn
+    exact ih a v hn
+  · rw [if_neg he]
+    have hne : deltaParams delta ≠ [] := by simpa using he
+    by_cases hnd : isNondefault next = true
+    · rw [if_pos hnd, sgrRun_deltaParams _ delta hdd A a hne]
+      cases hd : delta a with
+      | none =>
+        simp only
+        rw [h0 a hd] at hn
+        exact ih a v hn
+      | some w =>
+        simp only
+        have := h1 a w hd
+        rw [this] at hn
+        cases hn; rfl
+    · rw [if_neg hnd, sgrRun_reset]
+      have hall : nondefaultAttr next a = false := by
+        simp only [isNondefault, List.any_eq_true, not_exists, not_and, Bool.not_eq_true] at hnd
+        exact hnd a (Attr.mem_all a)
+      exact (sem_of_not_nondefault next a v hn (hdn a v hn) hall).symm
+
+
+/-! ### the invariant of the rendition -/
+
+/-- Every value of the pen means the default rendition. -/
+def allDefault (p : PenMap) : Bool := Attr.all.all fun a => match p a with
+  | some v => sem a v == dflt a
+  | none => true
+
+/-- The operation that triggers the pen defect of the unrepaired tree: a resume while a visible pen is cached. -/
+def penTrigger (cfg : Cfg) (s : Sys) : Op → Bool
+  | .resume => !cfg.resumeResendsPen && !allDefault s.term.pen
+  | _ => false
+
+/-- The invariant of the rendition: the cached pen is the pen asked for, and while running the terminal
+    renders every attribute of it. -/
+structure PInv (s : Sys) (vt : VT) (ph : Phase) (g : Ghost) : Prop where
+  ground : vt.ps = .ground
+  pen : s.term.pen = g.pen
+  dom : PenDom s.term.pen
+  shown : ph = .running → ∀ a v, s.term.pen a = some v → vt.attrs a = sem a v
+  off : ph ≠ .running → vt.attrs = Attrs.default
+  st : ph = .stopped ↔ s.term.state = .unstarted
+
+theorem penNext_logical_aux (isSet : Bool) (c p : Option Int) (dv : Int) :
+    (if ((!isSet && p.isNone) || (c.isSome && c.getD dv == p.getD dv)) = true then c else some (p.getD dv)) =
+      (if isSet = true then some (p.getD dv) else (match p with
+        | some v => some v
+        | none => c)) := by
+  cases isSet <;> cases p <;> cases c <;> simp
+  all_goals (intro h; rw [h])
+
+/-- The cached pen after `setpen`/`chpen` is the pen the program asked for. -/
+theorem penNext_eq_logical (isSet : Bool) (cur pen : PenMap) : penNext isSet cur pen = logicalPen isSet cur pen := by
+  funext a
+  exact penNext_logical_aux isSet (cur a) (pen a) (dflt a)
+
+theorem penDelta_none (isSet : Bool) (cur pen : PenMap) (a : Attr) (h : penDelta isSet cur pen a = none) :
+    penNext isSet cur pen a = cur a := by
+  simp only [penDelta, penNext] at h ⊢
+  split at h
+  · rename_i hs; rw [if_pos hs]
+  · cases h
+
+theorem penDelta_some (isSet : Bool) (cur pen : PenMap) (a : Attr) (v : Int) (h : penDelta isSet cur pen a = some v) :
+    penNext isSet cur pen a = some v := by
+  simp only [penDelta, penNext] at h ⊢
+  split at h
+  · cases h
+  · rename_i hs; rw [if_neg hs]; exact h
+
+theorem allDefault_sem (p : PenMap) (h : allDefault p = true) : ∀ a v, p a = some v → dflt a = sem a v := by
+  intro a v hp
+  simp only [allDefault, List.all_eq_true] at h
+  have := h a (Attr.mem_all a)
+  simp only [hp, beq_iff_eq] at this
+  exact this.symm
+
+theorem Ghost.set_pen (g : Ghost) (c : Option Ctl) (v : Int) : (g.set c v).pen = g.pen := by
+  cases c with
+  | none => rfl
+  | some c => cases c <;> rfl
+
+theorem pstep_inv (cfg : Cfg) (s : Sys) (vt : VT) (ph ph' : Phase) (g : Ghost) (op : Op)
+    (h : PInv s vt ph g) (hok : opOk op = true) (hph : phaseNext ph op = some ph')
+    (hnt : penTrigger cfg s op = false) :
+    PInv (s.step cfg op).sys (VT.feed vt (s.step cfg op).out) ph' (g.step op (s.step cfg op).ret s.ua) := by
+  obtain ⟨ps, m, A⟩ := vt
+  obtain ⟨hgr, hpen, hdom, hsh, hoff, hst⟩ := h
+  simp only at hgr; subst hgr
+  cases op with
+  | ctl c v =>
+    cases ph <;> simp [phaseNext] at hph
+    subst hph
+    obtain ⟨m', hf⟩ := setctl_ground cfg s.term.drv c v m A
+    simp only [Sys.step, Term.setctl]
+    rw [hf]
+    refine ⟨rfl, ?_, hdom, hsh, fun hne => absurd rfl hne, by simpa using hst⟩
+    simp only [Ghost.step]
+    split
+    · rw [Ghost.set_pen]; exact hpen
+    · exact hpen
+  | setstr c payload =>
+    cases ph <;> simp [phaseNext] at hph
+    subst hph
+    have htxt : textOnly payload = true := by simpa [opOk] using hok
+    have hf : VT.feed ⟨.ground, m, A⟩ (setctlStr c payload).1 = ⟨.ground, m, A⟩ := by
+      cases c with
+      | none => rfl
+      | some c => cases c <;> first | rfl | exact feed_osc m A _ payload htxt (by decide)
+    simp only [Sys.step]
+    rw [hf]
+    exact ⟨rfl, hpen, hdom, hsh, hoff, hst⟩
+  | setpen p =>
+    cases ph <;> simp [phaseNext] at hph
+    subst hph
+    have hp : penInDomain p = true := by simpa [opOk] using hok
+    obtain ⟨hd1, hd2⟩ := penNext_dom true s.term.pen p hdom hp
+    simp only [Sys.step, Term.putpen]
+    rw [feed_drvChpen _ _ _ _ _ hd2]
+    refine ⟨rfl, ?_, hd1, fun _ => ?_, fun hne => absurd rfl hne, hst⟩
+    · show penNext true s.term.pen p = logicalPen true g.pen p
+      rw [penNext_eq_logical, hpen]
+    · exact chpen_establishes s.term.drv s.term.pen _ _ A hd2 hd1 (penDelta_none true _ _) (penDelta_some true _ _) (hsh rfl)
+  | chpen p =>
+    cases ph <;> simp [phaseNext] at hph
+    subst hph
+    have hp : penInDomain p = true := by simpa [opOk] using hok
+    obtain ⟨hd1, hd2⟩ := penNext_dom false s.term.pen p hdom hp
+    simp only [Sys.step, Term.putpen]
+    rw [feed_drvChpen _ _ _ _ _ hd2]
+    refine ⟨rfl, ?_, hd1, fun _ => ?_, fun hne => absurd rfl hne, hst⟩
+    · show penNext false s.term.pen p = logicalPen false g.pen p
+      rw [penNext_eq_logical, hpen]
+    · exact chpen_establishes s.term.drv s.term.pen _ _ A hd2 hd1 (penDelta_none false _ _) (penDelta_some false _ _) (hsh rfl)
+  | print bytes =>
+    cases ph <;> simp [phaseNext] at hph
+    subst hph
+    have htxt : textOnly bytes = true := by simpa [opOk] using hok
+    simp only [Sys.step]
+    rw [feed_text_ground m A bytes htxt]
+    exact ⟨rfl, hpen, hdom, hsh, hoff, hst⟩
+  | clear =>
+    cases ph <;> simp [phaseNext] at hph
+    subst hph
+    simp only [Sys.step]
+    rw [feed_clearScreen]
+    exact ⟨rfl, hpen, hdom, hsh, hoff, hst⟩
+  | flush =>
+    cases ph <;> simp [phaseNext] at hph
+    subst hph
+    exact ⟨rfl, hpen, hdom, hsh, hoff, hst⟩
+  | await =>
+    cases ph <;> simp [phaseNext] at hph
+    subst hph
+    exact ⟨rfl, hpen, hdom, hsh, hoff, by simp [Sys.step]⟩
+  | replyMode mode value =>
+    cases ph <;> simp [phaseNext] at hph
+    subst hph
+    exact ⟨rfl, hpen, hdom, hsh, hoff, by simpa [Sys.step] using hst⟩
+  | replyShape value =>
+    cases ph <;> simp [phaseNext] at hph
+    subst hph
+    exact ⟨rfl, hpen, hdom, hsh, hoff, by simpa [Sys.step] using hst⟩
+  | replySgr colon rgb =>
+    cases ph <;> simp [phaseNext] at hph
+    subst hph
+    exact ⟨rfl, hpen, hdom, hsh, hoff, by simpa [Sys.step] using hst⟩
+  | pause =>
+    cases ph <;> simp [phaseNext] at hph
+    subst hph
+    obtain ⟨m', hf⟩ := teardown_ground s.term.drv m A
+    simp only [Sys.step, Term.pause]
+    rw [hf]
+    refine ⟨rfl, hpen, hdom, (fun hc => by cases hc), fun _ => rfl, ?_⟩
+    have : s.term.state ≠ .unstarted := fun hc => by simpa using hst.2 hc
+    simp [this]
+  | resume =>
+    cases ph <;> simp [phaseNext] at hph
+    subst hph
+    have hA : A = Attrs.default := hoff (by simp)
+    obtain ⟨m', hf⟩ := resume_ground s.term.drv m A
+    simp only [Sys.step, Term.resume]
+    rw [feed_append, hf]
+    have hst' : (Phase.running = Phase.stopped ↔ s.term.state = TState.unstarted) := by
+      have : s.term.state ≠ .unstarted := fun hc => by simpa using hst.2 hc
+      simp [this]
+    by_cases hr : cfg.resumeResendsPen = true
+    · rw [if_pos hr, feed_drvChpen _ _ _ _ _ hdom]
+      refine ⟨rfl, hpen, hdom, fun _ => ?_, fun hne => absurd rfl hne, hst'⟩
+      exact chpen_establishes s.term.drv PenMap.empty s.term.pen s.term.pen A hdom hdom
+        (fun a ha => ha) (fun a v ha => ha) (fun a v ha => by cases ha)
+    · rw [if_neg hr, feed_nil]
+      refine ⟨rfl, hpen, hdom, fun _ => ?_, fun hne => absurd rfl hne, hst'⟩
+      have hall : allDefault s.term.pen = true := by
+        have hrf : cfg.resumeResendsPen = false := by simpa using hr
+        simpa [penTrigger, hrf] using hnt
+      intro a v hp
+      show A a = sem a v
+      rw [hA]
+      exact allDefault_sem _ hall a v hp
+  | teardown =>
+    have hns : s.term.state ≠ .unstarted := by
+      intro hc
+      have := hst.2 hc
+      subst this
+      simp [phaseNext] at hph
+    have hph' : ph' = .stopped := by
+      cases ph <;> simp [phaseNext] at hph <;> exact hph.symm
+    subst hph'
+    obtain ⟨m', hf⟩ := teardown_ground s.term.drv m A
+    simp only [Sys.step, Term.teardown, if_pos hns]
+    rw [hf]
+    exact ⟨rfl, hpen, hdom, (fun hc => by cases hc), fun _ => rfl, by simp⟩
+  | usealt v =>
+    cases ph <;> simp [phaseNext] at hph
+    subst hph
+    simp only [Sys.step]
+    cases htop : s.top <;> exact ⟨rfl, hpen, hdom, hsh, hoff, hst⟩
+  | tick nosetup =>
+    cases ph <;> simp [phaseNext] at hph
+    subst hph
+    simp only [Sys.step]
+    cases htop : s.top with
+    | none =>
+      simp only [Sys.ua, htop, Option.map_none, Ghost.step]
+      exact ⟨rfl, hpen, hdom, hsh, hoff, hst⟩
+    | some top =>
+      simp only [Sys.ua, htop, Option.map_some, Ghost.step]
+      have hgp : ∀ (c : Prop) [Decidable c] (x : Ghost), x.pen = g.pen → (if c then x else g).pen = g.pen := by
+        intro c _ x hx; split; exact hx; rfl
+      by_cases hcond : (!top.doneSetup && !nosetup) = true
+      · rw [if_pos hcond]
+        obtain ⟨m', hf, hp', hs'⟩ := setupterm_ground cfg top s.term m A
+        simp only
+        rw [hf]
+        refine ⟨rfl, ?_, by rw [hp']; exact hdom, fun _ => by rw [hp']; exact hsh rfl, fun hne => absurd rfl hne, by simp [hs']⟩
+        rw [hp', hpen]
+        symm; apply hgp; rfl
+      · rw [if_neg hcond]
+        simp only
+        refine ⟨rfl, ?_, hdom, hsh, hoff, hst⟩
+        rw [hpen]
+        symm; apply hgp; rfl
+
+
+/-- No resume of the history happens while a visible pen is cached (the trigger of the pen defect). -/
+def noPenTrigger (cfg : Cfg) : Sys → List Op → Bool
+  | _, [] => true
+  | s, op :: rest => !penTrigger cfg s op && noPenTrigger cfg (s.step cfg op).sys rest
+
+theorem prun_inv (cfg : Cfg) : ∀ (ops : List Op) (s : Sys) (vt : VT) (ph ph' : Phase) (g : Ghost),
+    PInv s vt ph g → validFrom ph ops = some ph' → noPenTrigger cfg s ops = true →
+    PInv (Sys.run cfg s ops).1 (VT.feed vt (Sys.run cfg s ops).2) ph' (ghostRun cfg s g ops)
+  | [], s, vt, ph, ph', g, h, hv, _ => by
+    simp only [validFrom, Option.some.injEq] at hv
+    subst hv
+    simpa [Sys.run, ghostRun] using h
+  | op :: rest, s, vt, ph, ph', g, h, hv, hnt => by
+    simp only [validFrom] at hv
+    split at hv
+    · rename_i hok
+      cases hp : phaseNext ph op with
+      | none => simp [hp] at hv
+      | some ph1 =>
+        simp only [hp, Option.bind_some] at hv
+        simp only [noPenTrigger, Bool.and_eq_true, Bool.not_eq_true'] at hnt
+        have h1 := pstep_inv cfg s vt ph ph1 g op h hok hp hnt.1
+        have h2 := prun_inv cfg rest _ _ ph1 ph' _ h1 hv hnt.2
+        simpa [Sys.run, ghostRun, feed_append] using h2
+    · cases hv
+
+theorem build_pinv (toplevel : Bool) (m0 : VModes) :
+    PInv (Sys.build toplevel).1 (VT.feed ⟨.ground, m0, Attrs.default⟩ (Sys.build toplevel).2) .running {} := by
+  simp only [Sys.build, Term.build]
+  rw [feed_startBytes]
+  exact ⟨rfl, rfl, (fun a v hx => by cases hx), (fun _ a v hx => by cases hx), fun hne => absurd rfl hne, by simp⟩
+
+theorem penShown_of (s : Sys) (vt : VT) (g : Ghost) (h : PInv s vt .running g) : penShown vt.attrs g.pen = true := by
+  simp only [penShown, List.all_eq_true]
+  intro k _
+  cases hk : g.pen k with
+  | none => rfl
+  | some v =>
+    simp only [Bool.or_eq_true, Bool.not_eq_true', beq_iff_eq]
+    right
+    exact h.shown rfl k v (by rw [h.pen]; exact hk)
+
+theorem noPenTrigger_of_repaired (cfg : Cfg) (hr : cfg.resumeResendsPen = true) : ∀ (ops : List Op) (s : Sys),
+    noPenTrigger cfg s ops = true
+  | [], _ => rfl
+  | op :: rest, s => by
+    simp only [noPenTrigger, Bool.and_eq_true, Bool.not_eq_true']
+    refine ⟨?_, noPenTrigger_of_repaired cfg hr rest _⟩
+    cases op <;> simp [penTrigger, hr]
+
+/-! ### the terminal after a history -/
+
+/-- The system after building and performing `ops`. -/
+def sysAfter (cfg : Cfg) (toplevel : Bool) (ops : List Op) : Sys := (Sys.run cfg (Sys.build toplevel).1 ops).1
+
+/-- The terminal (started in modes `m0`, default rendition) having read every byte written by building
+    and by `ops`. -/
+def vtAfter (cfg : Cfg) (toplevel : Bool) (m0 : VModes) (ops : List Op) : VT :=
+  VT.feed (VT.feed ⟨.ground, m0, Attrs.default⟩ (Sys.build toplevel).2) (Sys.run cfg (Sys.build toplevel).1 ops).2
+
+/-- What the program last set successfully, and the pen it asked for. -/
+def ghostAfter (cfg : Cfg) (toplevel : Bool) (ops : List Op) : Ghost := ghostRun cfg (Sys.build toplevel).1 {} ops
+
+/-- No operation of the history triggers one of the recorded defects of an unrepaired `cfg`. -/
+def TriggerFree (cfg : Cfg) (toplevel : Bool) (ops : List Op) : Prop := noTrigger cfg (Sys.build toplevel).1 {} ops = true
+
+instance (cfg : Cfg) (toplevel : Bool) (ops : List Op) : Decidable (TriggerFree cfg toplevel ops) := by
+  unfold TriggerFree; infer_instance
+
+theorem after_inv (cfg : Cfg) (toplevel : Bool) (m0 : VModes) (ops : List Op) (ph : Phase)
+    (hm0 : m0.standard = true) (hv : validFrom .running ops = some ph) (hnt : TriggerFree cfg toplevel ops) :
+    MInv cfg (sysAfter cfg toplevel ops) (vtAfter cfg toplevel m0 ops) ph (ghostAfter cfg toplevel ops) :=
+  run_inv cfg ops _ _ .running ph {} (build_inv cfg toplevel m0 hm0) hv hnt
+
+/-- With the keypad recorded and the replies guarded nothing is a trigger. -/
+theorem triggerFree_of_repaired (cfg : Cfg) (hk : cfg.keypadRecorded = true) (hr : cfg.repliesGuarded = true)
+    (toplevel : Bool) (ops : List Op) : TriggerFree cfg toplevel ops := by
+  unfold TriggerFree
+  generalize (Sys.build toplevel).1 = s
+  generalize ({} : Ghost) = g
+  induction ops generalizing s g with
+  | nil => rfl
+  | cons op rest ih =>
+    simp only [noTrigger, Bool.and_eq_true, Bool.not_eq_true']
+    refine ⟨?_, ih _ _⟩
+    cases op <;> simp [trigger, hk, hr]
+    rename_i c v
+    cases c with
+    | none => rfl
+    | some c => cases c <;> simp [trigger, hk]
+
+
+theorem ghostRun_append (cfg : Cfg) (a b : List Op) : ∀ (s : Sys) (g : Ghost),
+    ghostRun cfg s g (a ++ b) = ghostRun cfg (Sys.run cfg s a).1 (ghostRun cfg s g a) b := by
+  induction a with
+  | nil => intro s g; rfl
+  | cons op rest ih => intro s g; simp only [List.cons_append, ghostRun, Sys.run]; exact ih _ _
+
+theorem validFrom_append (a b : List Op) : ∀ (ph : Phase),
+    validFrom ph (a ++ b) = (validFrom ph a).bind (validFrom · b) := by
+  induction a with
+  | nil => intro ph; rfl
+  | cons op rest ih =>
+    intro ph
+    simp only [List.cons_append, validFrom]
+    split
+    · cases phaseNext ph op with
+      | none => rfl
+      | some p => simp only [Option.bind_some]; exact ih p
+    · rfl
+
+theorem noTrigger_append_pause_resume (cfg : Cfg) (ops : List Op) : ∀ (s : Sys) (g : Ghost),
+    noTrigger cfg s g ops = true → noTrigger cfg s g (ops ++ [.pause, .resume]) = true := by
+  induction ops with
+  | nil => intro s g _; rfl
+  | cons op rest ih =>
+    intro s g h
+    simp only [List.cons_append, noTrigger, Bool.and_eq_true] at h ⊢
+    exact ⟨h.1, ih _ _ h.2⟩
+
+
+/-- No resume of the history happens while a visible (non-default) pen is cached. -/
+def PenTriggerFree (cfg : Cfg) (toplevel : Bool) (ops : List Op) : Prop := noPenTrigger cfg (Sys.build toplevel).1 ops = true
+
+instance (cfg : Cfg) (toplevel : Bool) (ops : List Op) : Decidable (PenTriggerFree cfg toplevel ops) := by
+  unfold PenTriggerFree; infer_instance
+
+
 end Tickit.Modes
